@@ -228,8 +228,8 @@ class LocMap:
                 return EMPTY_SLICE
 
         if isinstance(key, np.datetime64):
-            # convert this to the target representation, do a Boolean selection
-            if labels.dtype != key.dtype:
+            # convert this to the target representation, do a Boolean selection; only datetime64 labels can be converted: labels of other dtypes (object) are matched as any other key
+            if labels.dtype.kind == DTYPE_DATETIME_KIND and labels.dtype != key.dtype:
                 key = labels.astype(key.dtype) == key
             # if not different type, keep it the same so as to do a direct, single element selection
 
@@ -239,7 +239,7 @@ class LocMap:
         # can be an iterable of labels (keys) or an iterable of Booleans
         if is_array or is_list:
             if is_array and key.dtype.kind == DTYPE_DATETIME_KIND:
-                if labels.dtype != key.dtype:
+                if labels.dtype.kind == DTYPE_DATETIME_KIND and labels.dtype != key.dtype:
                     labels_ref = labels.astype(key.dtype)
                     # let Boolean key advance to next branch
                     key = reduce(operator_mod.or_, (labels_ref == k for k in key))
